@@ -4,6 +4,18 @@ from .lib.runner import Outcome, Failure
 
 PROP = "C38"
 PROPS_FILE = "Props/C38.v"
+MANIFEST = dict(
+    text="Theorem C38_full (Coq, closed under the global context): for every list of parsed mount lines and every "
+         "path, the entry get_mount selects from parse_mount_table's output is a longest entry whose mount point is a "
+         "path-component prefix of the path (default when none); C38_sibling_never_confused; "
+         "C38_table_longest_first. The model (Model/Mount.v, Base/PyPath.v) is tied to the code by running "
+         "parse_mount_table/get_mount/on_cifs/on_same_mount on generated mount outputs and paths and evaluating model "
+         "and executable spec on the same cases inside Coq (vm_compute).",
+    note="Trusted: Coq kernel + vm_compute; hand-written model of get_mount/parse_mount_table and of PurePosixPath "
+         "(lexical); per-line regex not modelled; correspondence is differential testing.",
+    technique="Coq proof (first match in a length-sorted table is the longest component-prefix match) + model/impl correspondence via generated cases.v",
+    design="§8 Group G / C38",
+)
 TIE_NAME = "Model.Mount.parse_table/get_mount vs MountIndentifier.parse_mount_table/get_mount"
 TRUSTED = [
     "Model/Mount.v + Base/PyPath.v: hand-written model of parse_mount_table (after the per-line regex), get_mount, "
